@@ -129,3 +129,8 @@ for _p, _ms in GEN_MODS.items():
     _sp = SPECS[_p]
     _base = _sp.get("lean_modules") or ([_sp["lean_module"]] if _sp.get("lean_module") else [])
     _sp["lean_modules"] = list(_base) + [_G + m for m in _ms if _G + m not in _base]
+
+# composite operations outside the Op alphabet (Model/ArenaExt.lean): their theorems are obligations of C01, C03, C11
+for _p in ("C01", "C03", "C11"):
+    if _p in SPECS and "BumpVerif.Props.ArenaExtProps" not in SPECS[_p]["lean_modules"]:
+        SPECS[_p]["lean_modules"].append("BumpVerif.Props.ArenaExtProps")
